@@ -195,6 +195,12 @@ where
 {
     use rayon::prelude::*;
     (0..n).into_par_iter().for_each(|i| {
+        if i % 64 == 0 && stats.past_cap() {
+            return;
+        }
+        if stats.elapsed() > stats.wall_cap_s {
+            return;
+        }
         let case = match make(i) {
             Some(c) => c,
             None => return,
